@@ -78,15 +78,15 @@ func TestVerifC19Netns(t *testing.T) {
 		cancel()
 		select {
 		case <-done:
-		case <-time.After(10 * time.Second):
-			r.Violation(id, "watch-hung", "Watch did not return within 10 s of cancelation", nil)
+		case <-time.After(40 * time.Second):
+			r.Violation(id, "watch-hung", "Watch did not return within 40 s of cancelation", nil)
 			continue
 		}
 		fin := make(chan struct{})
 		go func() { wg.Wait(); close(fin) }()
 		select {
 		case <-fin:
-		case <-time.After(5 * time.Second):
+		case <-time.After(30 * time.Second):
 			r.Violation(id, "not-closed", "a subscriber channel was not closed after Watch returned", nil)
 			continue
 		}
